@@ -433,7 +433,7 @@ SMALL_OPS = [OPS[0], OPS[3], OPS[5], ('add', 'm2', 'alt'), ('add', 'm1', 'big'),
 def bounds(tier):
     if tier == 'quick':
         return {'depth_full': 3, 'depth_small': 4, 'containers': 7}
-    return {'depth_full': 5, 'depth_small': 12, 'containers': 5}
+    return {'depth_full': 4, 'depth_small': 7, 'containers': 7}
 
 
 def run(ctx):
